@@ -343,7 +343,16 @@ def main(argv=None):
     except HarnessError as e:
         sys.stderr.write("HARNESS-ERROR %s: %s\n" % (prop, e))
         return 2
-    except Exception:
+    except Exception as e:
+        lib = library_frame(e.__traceback__)
+        if lib:
+            # an exception from inside the library that escaped the property module outside any shard:
+            # the property's oracle did not anticipate it; report it rather than hide it as a harness error
+            sig = "%s:uncaught:%s@%s" % (prop, type(e).__name__, lib)
+            path = write_replay(prop, sig, {"case": {"traceback": traceback.format_exc()[-3000:]}, "msg": repr(e)})
+            print("VIOLATION property=%s replay=%s" % (prop, path))
+            print("  sig=%s uncaught %r" % (sig, e))
+            return 1
         sys.stderr.write("HARNESS-ERROR %s:\n%s\n" % (prop, traceback.format_exc()))
         return 2
 
